@@ -348,6 +348,7 @@ R11.4 config templates and mock templates are both created with Funcs(template_f
 	}
 	// ---- R11.3
 	ruleFixpoint(c, r, cp, fd)
+	ruleRenderMemoKey(c, r, "R11.3")
 	// ---- R11.5: ParseTemplates rewrites the templated strings in place, so each interface must own its Config
 	subRules(c, "R11.5", "own-config", "templated parameters are rendered in place, so a Config shared between interfaces is rendered once and reused: ", func(sub *Ctx) { ruleNoSharing(sub, r, cp) })
 	// ---- R11.4
@@ -612,4 +613,128 @@ func indexPairs(a, b string) bool {
 	ka, oka := key(a)
 	kb, okb := key(b)
 	return oka && okb && ka == kb && ka != ""
+}
+
+// ruleRenderMemoKey (round 7): a memo of rendered config values that lives longer than one call (a package-level
+// map written in ParseTemplates' family) must be keyed by everything the rendering reads, i.e. the text and the
+// whole TemplateData. A key that formats the data through package fmt is the whole data only as long as
+// TemplateData has no String/GoString/Format/Error method: with one, %v/%s/%q print that method's result (two
+// cooperating edits: a cache keyed by Sprintf("%q %q", text, data) and a String() that names package and
+// interface only - the second configs entry of an interface then gets the first one's file name).
+func ruleRenderMemoKey(c *Ctx, r *Repo, rule string) {
+	cp := r.Pkg("config")
+	info := cp.TypesInfo
+	fd := FuncDecl(cp, "Config.ParseTemplates")
+	if fd == nil {
+		return
+	}
+	td, _ := cp.Types.Scope().Lookup("TemplateData").(*types.TypeName)
+	if td == nil {
+		c.Fail(rule, "ParseTemplates|memo-key|TemplateData", "config/config.go", "type TemplateData not found")
+		return
+	}
+	custom := ""
+	for _, t := range []types.Type{td.Type(), types.NewPointer(td.Type())} {
+		ms := types.NewMethodSet(t)
+		for i := 0; i < ms.Len(); i++ {
+			switch ms.At(i).Obj().Name() {
+			case "String", "GoString", "Format", "Error":
+				custom = ms.At(i).Obj().Name()
+			}
+		}
+	}
+	isData := func(e ast.Expr) bool {
+		t := info.TypeOf(e)
+		if t == nil {
+			return false
+		}
+		if p, ok := t.Underlying().(*types.Pointer); ok {
+			t = p.Elem()
+		}
+		return types.Identical(t, td.Type())
+	}
+	bad := ""
+	nMemo := 0
+	for _, g := range familyOf(cp, fd) {
+		defs := map[types.Object][]ast.Expr{}
+		ast.Inspect(g.Body, func(x ast.Node) bool {
+			if as, ok := x.(*ast.AssignStmt); ok && len(as.Lhs) == len(as.Rhs) {
+				for i, l := range as.Lhs {
+					if id, ok := l.(*ast.Ident); ok {
+						o := info.Defs[id]
+						if o == nil {
+							o = info.Uses[id]
+						}
+						if o != nil {
+							defs[o] = append(defs[o], as.Rhs[i])
+						}
+					}
+				}
+			}
+			return true
+		})
+		ast.Inspect(g.Body, func(x ast.Node) bool {
+			as, ok := x.(*ast.AssignStmt)
+			if !ok {
+				return true
+			}
+			for _, l := range as.Lhs {
+				ie, ok := ast.Unparen(l).(*ast.IndexExpr)
+				if !ok {
+					continue
+				}
+				id, ok := ast.Unparen(ie.X).(*ast.Ident)
+				if !ok {
+					continue
+				}
+				v, ok := info.Uses[id].(*types.Var)
+				if !ok || v.Parent() != cp.Types.Scope() {
+					continue
+				}
+				nMemo++
+				// the expressions the key is made of (through the definitions of a local key variable)
+				exprs := []ast.Expr{ie.Index}
+				if kid, ok := ast.Unparen(ie.Index).(*ast.Ident); ok {
+					exprs = append(exprs, defs[info.Uses[kid]]...)
+				}
+				whole, viaFmt := false, false
+				for _, e := range exprs {
+					ast.Inspect(e, func(m ast.Node) bool {
+						switch y := m.(type) {
+						case *ast.CallExpr:
+							if strings.HasPrefix(calleeName(info, y), "fmt.") {
+								for _, a := range y.Args {
+									if isData(a) {
+										viaFmt = true
+									}
+								}
+								return false
+							}
+						case *ast.CompositeLit:
+							for _, el := range y.Elts {
+								v := el
+								if kv, ok := el.(*ast.KeyValueExpr); ok {
+									v = kv.Value
+								}
+								if isData(v) {
+									whole = true
+								}
+							}
+						}
+						return true
+					})
+				}
+				switch {
+				case whole:
+				case viaFmt && custom == "":
+				case viaFmt:
+					bad = fmt.Sprintf("%s keys %s by a fmt rendering of the template data, and TemplateData has a %s method: the key contains what that method prints, not the data", g.Name.Name, id.Name, custom)
+				default:
+					bad = fmt.Sprintf("%s stores into the package-level map %s under a key (%s) that does not contain the template data the value was rendered from", g.Name.Name, id.Name, types.ExprString(ie.Index))
+				}
+			}
+			return true
+		})
+	}
+	c.Check(bad == "", rule, "ParseTemplates|memo-key", r.Pos(fd.Pos()), fmt.Sprintf("%d package-level memo stores in ParseTemplates; each keyed by the whole template data", nMemo), bad+": a later call with the same text and different data (another configs entry, another interface) is given the remembered rendering")
 }
